@@ -1,6 +1,7 @@
 package props
 
 import (
+	"go/constant"
 	"go/token"
 	"go/types"
 	"strings"
@@ -138,6 +139,7 @@ func runC13(c *Ctx) {
 		return
 	}
 	cfg := p.Cfg.Name
+	ruleOptionDefaults(c, p, "C13.defaults")
 	hs := p.Method(core.PkgCh, "Client", "handshake")
 	if !c.must(p, "(*ch.Client).handshake", hs != nil) {
 		return
@@ -897,4 +899,58 @@ func isMinOf(v ssa.Value) bool {
 	}
 	a, b := core.FieldOrigin(cl.Call.Args[0], 0), core.FieldOrigin(cl.Call.Args[1], 0)
 	return (a == "Client.protocolVersion" && b == "ServerHello.Revision") || (b == "Client.protocolVersion" && a == "ServerHello.Revision")
+}
+
+// ---- C13.defaults (shared with C08/C10 as <prop>.defaults)
+// The documented defaults are the exported Default<Field> constants; the value a
+// zero Options field is filled with must be the constant declared for that field.
+func ruleOptionDefaults(c *Ctx, p *core.Program, rule string) {
+	c.R.Rule(rule, "the configured value of an option left at zero is its documented default: wherever package ch stores a constant into a field F of Options for which the package declares a constant Default<F> (DefaultHandshakeTimeout, DefaultReadTimeout, DefaultDialTimeout, DefaultDatabase, DefaultUser), the stored value equals that constant's value - filling HandshakeTimeout from the read-timeout default makes the hello wait 3s instead of the documented 5m")
+	cfg := p.Cfg.Name
+	var pkg *types.Package
+	for _, fn := range p.Funcs() {
+		if pk := pkgOf(fn); pk != nil && pk.Path() == core.PkgCh {
+			pkg = pk
+			break
+		}
+	}
+	if pkg == nil {
+		c.R.Unk(rule, "package ch", cfg, "", "anchor lost")
+		return
+	}
+	n := 0
+	for _, fn := range p.Funcs() {
+		if pk := pkgOf(fn); pk == nil || pk.Path() != core.PkgCh || fn.Blocks == nil {
+			continue
+		}
+		for _, b := range fn.Blocks {
+			for _, in := range b.Instrs {
+				s, ok := in.(*ssa.Store)
+				if !ok {
+					continue
+				}
+				fa, ok := s.Addr.(*ssa.FieldAddr)
+				if !ok || !core.IsNamed(fa.X.Type(), core.PkgCh, "Options") {
+					continue
+				}
+				k, ok := stripConv(s.Val).(*ssa.Const)
+				if !ok || k.Value == nil {
+					continue
+				}
+				name := fieldNameOnly(fa.X.Type(), fa.Field)
+				dc, ok := pkg.Scope().Lookup("Default" + name).(*types.Const)
+				if !ok {
+					continue
+				}
+				n++
+				key := "Options." + name
+				if constant.Compare(dc.Val(), token.EQL, k.Value) {
+					c.R.Ok(rule, key, cfg, p.Pos(s.Pos()), "filled with Default"+name+" = "+dc.Val().String())
+				} else {
+					c.R.Bad(rule, key, cfg, p.Pos(s.Pos()), "Options."+name+" is filled with "+k.Value.String()+", not with its documented default Default"+name+" = "+dc.Val().String())
+				}
+			}
+		}
+	}
+	c.R.Floor(rule, cfg, n, 4)
 }
